@@ -61,7 +61,10 @@ def gen_cases(rng, tier, info):
         "(create 0)", "(create_table %s %s)" % (T, C2), "(create_table %s %s)" % (U, C2),
         "(x_insert_range %s 1 32700 1)" % T, "(x_insert_range %s 40000 72700 1)" % U, "(x_count %s)" % U,
         # the pool now holds 65,401 table strings + the catalog strings; go to the limit one string at a time
-    ] + sum([["(x_insert_range %s %d %d 1)" % (U, 72701 + i, 72701 + i), "(x_count %s)" % U] for i in range(120)], [])
+    ] + sum([["(x_insert_range %s %d %d 1)" % (U, 72701 + i, 72701 + i),
+              # replacing the only use of a string by a new string keeps the number of distinct strings: always possible
+              "(update %s ((%s %s)) ((bin eq (col %s) (lit (i %d)))))" % (U, X.enc_str("V"), X.enc_value("fresh-%d" % i), X.enc_str("K"), 40000 + i),
+              "(x_count %s)" % U] for i in range(120)], [])
       + ["(reopen flush)", "(x_count %s)" % U, "(x_count %s)" % T], ("strings",)))
     info.update({"limits": {"columns": 32, "rows": 65536, "short_string_refs": 65535, "name_units": 31}})
     return cases
@@ -137,8 +140,17 @@ def oracle(ctx):
         # bulk cases: replay the arithmetic
         count = {}
         strings = 0
+        insert_panicked = False
         for i, (cmd, o) in enumerate(zip(c.cmds, outs)):
             sx = X.parse_sx(cmd)
+            if sx[0] == "update":
+                if o == "panic" and not insert_panicked:
+                    report("panic", "an UPDATE that keeps the number of distinct strings panicked on a full string pool", i)
+                elif o not in ("(ok ())", "panic") and not insert_panicked:
+                    report("limit", "an UPDATE that keeps the number of distinct strings was refused: %s" % o, i)
+                continue
+            if sx[0] == "x_insert_range" and o == "panic":
+                insert_panicked = True
             if sx[0] == "x_insert_range":
                 t = tuple(sx[1])
                 n = sx[3] - sx[2] + 1
